@@ -282,3 +282,689 @@ fn l2_put_2classes() {
 fn l2_put_3classes_zero_slot() {
     check_put::<3>(true);
 }
+
+macro_rules! l2_harness {
+    ($(#[$m:meta])* $name:ident, $body:expr) => {
+        #[kani::proof]
+        #[kani::unwind(10)]
+        #[kani::stub(crate::atomic::Atom::try_update, crate::atomic::Atom::try_update_seq)]
+        #[kani::stub(crate::atomic::Atom::update, crate::atomic::Atom::update_seq)]
+        #[kani::stub(crate::lower::Lower::put, crate::lower::Lower::put_contract)]
+        #[kani::stub(crate::lower::Lower::get, crate::lower::Lower::get_contract)]
+        #[kani::stub(crate::lower::Lower::stats_at, crate::lower::Lower::stats_at_contract)]
+        #[kani::stub(crate::lower::Lower::stats, crate::lower::Lower::stats_contract)]
+        $(#[$m])*
+        fn $name() {
+            $body
+        }
+    };
+}
+
+fn sum_lf(lf: &[usize; L2T], offline: &[bool; L2T]) -> usize {
+    let mut s = 0;
+    let mut t = 0;
+    while t < L2T {
+        if !offline[t] {
+            s += lf[t];
+        }
+        t += 1;
+    }
+    s
+}
+
+// ---------------------------------------------------------------------------------------------
+// LLFree::drain (C10: returns every slot counter to its tree; C09: never panics under I)
+// ---------------------------------------------------------------------------------------------
+fn check_drain<const NC: usize>(zero_slot_last: bool) {
+    kpolicy::init(false);
+    let c = any_cfg::<NC>(zero_slot_last);
+    kani::assume(inv(&c.words, &c.slots, &c.lf, &c.offline, c.last_slots));
+    let (_, words, slots, lf) = with_alloc(&c, |a| a.drain());
+    let mut i = 0;
+    while i < NC {
+        if nslots(&c, i) == 1 {
+            clause!(!slot_fields(slots[i]).0, "C10: after a drain no slot holds a tree");
+        }
+        i += 1;
+    }
+    let mut t = 0;
+    while t < L2T {
+        clause!(lf[t] == c.lf[t], "drain does not touch the lower allocator");
+        clause!((words[t] >> 28) & 1 == 0, "C10: after a drain no tree is reserved");
+        t += 1;
+    }
+    inv_clauses(&words, &slots, &lf, &c.offline, c.last_slots);
+}
+l2_harness!(l2_drain_2classes, check_drain::<2>(false));
+l2_harness!(l2_drain_3classes_zero_slot, check_drain::<3>(true));
+
+// ---------------------------------------------------------------------------------------------
+// LLFree::tree_stats (C14, C04 fast count)
+// ---------------------------------------------------------------------------------------------
+fn check_tree_stats<const NC: usize>(zero_slot_last: bool, reservations_hold_frames: bool) {
+    kpolicy::init(false);
+    let c = any_cfg::<NC>(zero_slot_last);
+    kani::assume(inv(&c.words, &c.slots, &c.lf, &c.offline, c.last_slots));
+    let (s, _, _, _) = with_alloc(&c, |a| a.tree_stats());
+    let mut total = 0;
+    let mut free = 0;
+    let mut k = 0;
+    while k < 8 {
+        total += s.classes[k].free_frames + s.classes[k].alloc_frames;
+        free += s.classes[k].free_frames;
+        k += 1;
+    }
+    clause!(s.free_frames == sum_lf(&c.lf, &c.offline), "C04: the fast free count equals the exact count minus the frames of offline trees");
+    clause!(free == s.free_frames, "C14: the per-class free counts sum to the fast total free count");
+    // frames sitting in local reservations
+    let mut held = 0;
+    let mut i = 0;
+    while i < NC {
+        if nslots(&c, i) == 1 {
+            let (present, _, sfree) = slot_fields(c.slots[i]);
+            if present {
+                held += sfree;
+            }
+        }
+        i += 1;
+    }
+    kani::assume((held > 0) == reservations_hold_frames);
+    if held == 0 {
+        clause!(total == L2T * TREE_FRAMES, "C14: free plus allocated over all classes equals trees times tree size (no frames in reservations)");
+    } else {
+        clause!(total == L2T * TREE_FRAMES, "C14: free plus allocated over all classes equals trees times tree size (frames in reservations)");
+    }
+}
+l2_harness!(l2_tree_stats_2classes, check_tree_stats::<2>(false, false));
+l2_harness!(l2_tree_stats_3classes_zero_slot, check_tree_stats::<3>(true, false));
+l2_harness!(l2_tree_stats_reserved_2classes, check_tree_stats::<2>(false, true));
+l2_harness!(l2_tree_stats_reserved_3classes_zero_slot, check_tree_stats::<3>(true, true));
+
+// ---------------------------------------------------------------------------------------------
+// LLFree::validate (C04): passes whenever the invariant holds and no tree is offline
+// ---------------------------------------------------------------------------------------------
+fn check_validate<const NC: usize>() {
+    kpolicy::init(false);
+    let c = any_cfg::<NC>(false);
+    kani::assume(inv(&c.words, &c.slots, &c.lf, &c.offline, c.last_slots));
+    let mut t = 0;
+    while t < L2T {
+        kani::assume(!c.offline[t]);
+        t += 1;
+    }
+    let (_, words, _, _) = with_alloc(&c, |a| a.validate());
+    clause!(words[0] == c.words[0], "validate is read-only");
+}
+l2_harness!(l2_validate_2classes, check_validate::<2>());
+
+// ---------------------------------------------------------------------------------------------
+// LLFree::change_tree (C15)
+// ---------------------------------------------------------------------------------------------
+fn check_change_tree<const NC: usize>() {
+    kpolicy::init(false);
+    let c = any_cfg::<NC>(false);
+    kani::assume(inv(&c.words, &c.slots, &c.lf, &c.offline, c.last_slots));
+    let id: Option<TreeId> = if kani::any() { Some(TreeId(kani::any())) } else { None };
+    let m_class: Option<Class> = if kani::any() {
+        let k: u8 = kani::any();
+        kani::assume((k as usize) < NC);
+        Some(Class(k))
+    } else {
+        None
+    };
+    let m_free: usize = kani::any();
+    let c_class: Option<Class> = if kani::any() {
+        let k: u8 = kani::any();
+        kani::assume((k as usize) < NC);
+        Some(Class(k))
+    } else {
+        None
+    };
+    let opk: u8 = kani::any();
+    kani::assume(opk < 3);
+    let op = match opk {
+        0 => None,
+        1 => Some(TreeOperation::Online),
+        _ => Some(TreeOperation::Offline),
+    };
+    // valid parameter: a tree id, if given, names an existing tree ("naming any tree")
+    kani::assume(id.is_none_or(|i| i.0 < L2T));
+    // offlining is defined for entirely free trees (the caller matches on free == TREE_FRAMES)
+    kani::assume(op != Some(TreeOperation::Offline) || m_free == TREE_FRAMES);
+    let (r, words, slots, lf) = with_alloc(&c, |a| a.change_tree(TreeMatch { id, class: m_class, free: m_free }, TreeChange { class: c_class, operation: op.clone() }));
+    vcover!(r.is_ok() && op == Some(TreeOperation::Offline), "offline applied");
+    vcover!(r.is_ok() && op == Some(TreeOperation::Online), "online applied");
+    vcover!(r.is_err(), "change refused");
+    // which tree changed?
+    let mut changed = 0;
+    let mut which = 0;
+    let mut t = 0;
+    while t < L2T {
+        if words[t] != c.words[t] {
+            changed += 1;
+            which = t;
+        }
+        t += 1;
+    }
+    clause!(changed <= 1, "C15: a tree change affects at most one tree");
+    let matches = |t: usize| {
+        let w = c.words[t];
+        (w >> 28) & 1 == 0 && m_class.is_none_or(|k| k.0 as u32 == (w >> 29) & 7) && (w & 0x0fff_ffff) as usize >= m_free
+    };
+    if r.is_err() {
+        clause!(changed == 0, "C15: a refused change leaves every tree unchanged");
+        if let Some(i) = id {
+            clause!(!matches(i.0) || (op == Some(TreeOperation::Online) && c.words[i.0] & 0x0fff_ffff != 0), "C15: a matching unreserved tree named by id is changed");
+        }
+    }
+    // ghost offline set follows the operation
+    let mut offline = c.offline;
+    if r.is_ok() {
+        let t = if changed == 1 { which } else if let Some(i) = id { i.0 } else { 0 };
+        if changed == 1 {
+            clause!(matches(which), "C15: changes never apply to reserved trees or to trees that do not match");
+            clause!(id.is_none_or(|i| i.0 == which), "C15: a change by id applies to that tree");
+        }
+        match op {
+            Some(TreeOperation::Offline) => {
+                clause!(changed == 0 || words[which] & 0x0fff_ffff == 0, "C15: offline empties the fast counter");
+                if changed == 1 {
+                    offline[which] = true;
+                }
+            }
+            Some(TreeOperation::Online) => {
+                if changed == 1 {
+                    clause!((words[which] & 0x0fff_ffff) as usize == c.lf[which], "C15: online restores exact accounting from the lower allocator");
+                    clause!(c_class.is_none_or(|k| k.0 as u32 == (words[which] >> 29) & 7), "C15: online gives the tree the requested class");
+                    offline[which] = false;
+                }
+            }
+            None => {}
+        }
+        let _ = t;
+    }
+    // Online of a tree that is not offline (counter 0 because everything is allocated) keeps I as well
+    inv_clauses(&words, &slots, &lf, &offline, c.last_slots);
+}
+l2_harness!(l2_change_tree_2classes, check_change_tree::<2>());
+
+// ---------------------------------------------------------------------------------------------
+// Allocation paths. `LLFree::get` is verified modularly: every inner helper (steal_global,
+// reserve_or_steal, get_local, steal_local, demote_local, search_and_reserve, get_at) is checked
+// against the SAME generic contract G, and is replaced by G (as a verified stub) where its callers
+// are checked.
+//   G  pre : invariant I, valid arguments
+//      post: invariant I;
+//            Ok((f, c)) => exactly one lower-level allocation happened, it is the block at f
+//                          (aligned, in range, in a tree that is not offline, the requested frame
+//                          if one was given), its frames left LF[tree(f)], every other LF is
+//                          unchanged, and c is the requested class or one the policy rates as
+//                          match or stealable for it (C13);
+//            Err(e)     => e == Memory, no lower-level allocation remains, every LF unchanged.
+// ---------------------------------------------------------------------------------------------
+use crate::trees::verif_contracts::set_tree_word;
+
+fn word_fields(w: u32) -> (usize, bool, u8) {
+    ((w & 0x0fff_ffff) as usize, (w >> 28) & 1 == 1, ((w >> 29) & 7) as u8)
+}
+fn cur_word(a: &LLFree, t: usize) -> u32 {
+    let (free, res, class) = tree_word(&a.trees, t);
+    (free as u32) | ((res as u32) << 28) | ((class as u32) << 29)
+}
+fn has_slot(a: &LLFree, c: usize) -> bool {
+    a.locals.class_locals(Class(c as u8)) == Some(1)
+}
+/// Invariant I evaluated on the live allocator (same predicate as `inv`).
+fn inv_rt(a: &LLFree) -> bool {
+    let mut ok = true;
+    let mut t = 0;
+    while t < L2T {
+        let (free, reserved, tclass) = word_fields(cur_word(a, t));
+        let lf = unsafe { ghost::LF[t] };
+        if free > TREE_FRAMES || lf > TREE_FRAMES {
+            ok = false;
+        }
+        let mut holders = 0;
+        let mut held = 0;
+        let mut c = 0;
+        while c < MAXC {
+            if has_slot(a, c) {
+                let (present, tree, sfree, _) = slot_word(&a.locals, Class(c as u8), 0);
+                if present && tree == t {
+                    holders += 1;
+                    held += sfree;
+                    if kpolicy::kind(Class(c as u8), Class(tclass)) > 1 {
+                        ok = false;
+                    }
+                }
+            }
+            c += 1;
+        }
+        if holders > 1 || (holders == 1) != reserved {
+            ok = false;
+        }
+        if unsafe { OFFLINE[t] } {
+            if free != 0 || reserved || lf != TREE_FRAMES {
+                ok = false;
+            }
+        } else if free + held != lf {
+            ok = false;
+        }
+        if a.locals.class_locals(Class(tclass)).is_none() {
+            ok = false;
+        }
+        t += 1;
+    }
+    let mut c = 0;
+    while c < MAXC {
+        if has_slot(a, c) {
+            let (present, _, sfree, row) = slot_word(&a.locals, Class(c as u8), 0);
+            if present && (row * 64 >= L2T * TREE_FRAMES || sfree > TREE_FRAMES) {
+                ok = false;
+            }
+        }
+        c += 1;
+    }
+    ok
+}
+fn lf_now() -> [usize; L2T] {
+    let mut r = [0; L2T];
+    let mut t = 0;
+    while t < L2T {
+        r[t] = unsafe { ghost::LF[t] };
+        t += 1;
+    }
+    r
+}
+/// Postcondition G as a predicate (assumed by the stub, asserted clause by clause by `g_check`).
+fn g_holds(a: &LLFree, lf0: &[usize; L2T], allocs0: usize, class: Class, order: usize, frame: Option<FrameId>, r: &Result<(FrameId, Class)>) -> bool {
+    let n = 1usize << order;
+    let lf = lf_now();
+    let allocs = unsafe { ghost::NET_ALLOCS };
+    let mut ok = inv_rt(a);
+    let mut u = 0;
+    while u < L2T {
+        if lf[u] > TREE_FRAMES {
+            return false;
+        }
+        u += 1;
+    }
+    match r {
+        Ok((f, c)) => {
+            if f.0 >= L2T * TREE_FRAMES || f.0 % n != 0 || f.0 + n > L2T * TREE_FRAMES {
+                return false;
+            }
+            let t = f.0 / TREE_FRAMES;
+            if allocs != allocs0 + 1 || unsafe { ghost::LAST_FRAME } != f.0 || unsafe { OFFLINE[t] } {
+                ok = false;
+            }
+            if frame.is_some_and(|x| x.0 != f.0) {
+                ok = false;
+            }
+            let mut u = 0;
+            while u < L2T {
+                if lf[u] + (if u == t { n } else { 0 }) != lf0[u] {
+                    ok = false;
+                }
+                u += 1;
+            }
+            if !(c.0 == class.0 || kpolicy::kind(class, *c) == 0 || kpolicy::kind(class, *c) == 2) {
+                ok = false;
+            }
+            if a.locals.class_locals(*c).is_none() {
+                ok = false;
+            }
+        }
+        Err(e) => {
+            if *e != Error::Memory || allocs != allocs0 {
+                ok = false;
+            }
+            let mut u = 0;
+            while u < L2T {
+                if lf[u] != lf0[u] {
+                    ok = false;
+                }
+                u += 1;
+            }
+        }
+    }
+    ok
+}
+fn g_check(a: &LLFree, lf0: &[usize; L2T], class: Class, order: usize, frame: Option<FrameId>, r: &Result<(FrameId, Class)>) {
+    let n = 1usize << order;
+    let lf = lf_now();
+    let allocs = unsafe { ghost::NET_ALLOCS };
+    clause!(inv_rt(a), "C04/C09: the allocation path preserves the allocator invariant I (counter conservation, reservations, unreserve precondition)");
+    match r {
+        Ok((f, c)) => {
+            clause!(f.0 % n == 0 && f.0 < L2T * TREE_FRAMES && f.0 + n <= L2T * TREE_FRAMES, "C01: block aligned and inside the managed range");
+            let t = (f.0 / TREE_FRAMES).min(L2T - 1);
+            clause!(allocs == 1 && unsafe { ghost::LAST_FRAME } == f.0, "C02: a successful allocation returns exactly the block of its one lower-level allocation");
+            clause!(!unsafe { OFFLINE[t] }, "C15: no allocation returns a frame of an offline tree");
+            clause!(frame.is_none_or(|x| x.0 == f.0), "C02: a targeted allocation returns exactly the requested frame");
+            let mut u = 0;
+            while u < L2T {
+                clause!(lf[u] + (if u == t { n } else { 0 }) == lf0[u], "C02: exactly the block's frames leave the lower allocator");
+                u += 1;
+            }
+            clause!(c.0 == class.0 || kpolicy::kind(class, *c) == 0 || kpolicy::kind(class, *c) == 2,
+                "C13: the reported class is the requested one or one the policy rates as match or stealable");
+            clause!(a.locals.class_locals(*c).is_some(), "C13: the reported class is a configured class");
+        }
+        Err(e) => {
+            clause!(*e == Error::Memory, "a valid request fails only with out-of-memory");
+            clause!(allocs == 0, "C02: a failing allocation leaves no frame allocated");
+            let mut u = 0;
+            while u < L2T {
+                clause!(lf[u] == lf0[u], "C02: a failing allocation changes no lower-level counter");
+                u += 1;
+            }
+        }
+    }
+}
+
+impl LLFree<'_> {
+    /// G as a verified stub: assert the precondition, havoc everything the frame allows (tree words,
+    /// slot words, ghost lower counters), assume the postcondition.
+    fn g_stub(&self, class: Class, order: usize, frame: Option<FrameId>) -> Result<(FrameId, Class)> {
+        kani::assert(inv_rt(self), "precondition of an allocation helper: invariant I");
+        kani::assert(order <= TREE_ORDER && self.locals.class_locals(class).is_some(), "precondition of an allocation helper: valid order and class");
+        let lf0 = lf_now();
+        let allocs0 = unsafe { ghost::NET_ALLOCS };
+        let mut t = 0;
+        while t < L2T {
+            set_tree_word(&self.trees, t, kani::any());
+            unsafe { ghost::LF[t] = kani::any() };
+            t += 1;
+        }
+        let mut c = 0;
+        while c < MAXC {
+            if has_slot(self, c) {
+                let bits: u64 = kani::any();
+                kani::assume(slot_wf(bits));
+                set_slot(&self.locals, Class(c as u8), 0, bits);
+            }
+            c += 1;
+        }
+        let r: Result<(FrameId, Class)> = if kani::any() {
+            let f: usize = kani::any();
+            let k: u8 = kani::any();
+            kani::assume(k < 8);
+            unsafe {
+                ghost::NET_ALLOCS = allocs0 + 1;
+                ghost::LAST_FRAME = f;
+                ghost::LAST_ORDER = order;
+            }
+            Ok((FrameId(f), Class(k)))
+        } else {
+            Err(Error::Memory)
+        };
+        kani::assume(g_holds(self, &lf0, allocs0, class, order, frame, &r));
+        r
+    }
+    fn steal_global_g(&self, i: TreeId, class: Class, order: usize, frame: Option<FrameId>) -> Result<(FrameId, Class)> {
+        kani::assert(i.0 < L2T, "steal_global precondition: tree id in range");
+        self.g_stub(class, order, frame)
+    }
+    fn reserve_or_steal_g(&self, i: TreeId, order: usize, class: Class, _local: usize) -> Result<(FrameId, Class)> {
+        kani::assert(i.0 < L2T, "reserve_or_steal precondition: tree id in range");
+        self.g_stub(class, order, None)
+    }
+    fn get_local_g(&self, order: usize, class: Class, local: usize, frame: Option<FrameId>, _sync: bool) -> core::result::Result<(FrameId, Class), (Error, Option<TreeId>)> {
+        kani::assert(self.locals.class_locals(class).is_some_and(|n| local < n), "get_local precondition: slot index below the class's slot count");
+        match self.g_stub(class, order, frame) {
+            Ok(r) => Ok(r),
+            Err(e) => {
+                let t: Option<TreeId> = if kani::any() {
+                    let t: usize = kani::any();
+                    kani::assume(t < L2T);
+                    Some(TreeId(t))
+                } else {
+                    None
+                };
+                Err((e, t))
+            }
+        }
+    }
+    fn search_and_reserve_g(&self, order: usize, class: Class, local: usize, start: TreeId) -> Result<(FrameId, Class)> {
+        kani::assert(self.locals.class_locals(class).is_some_and(|n| local < n) && start.0 < L2T, "search_and_reserve precondition");
+        self.g_stub(class, order, None)
+    }
+    fn steal_local_g(&self, request: &Request, frame: Option<FrameId>) -> Result<(FrameId, Class)> {
+        self.g_stub(request.class, request.order, frame)
+    }
+    fn demote_local_g(&self, request: &Request, frame: Option<FrameId>) -> Result<(FrameId, Class)> {
+        self.g_stub(request.class, request.order, frame)
+    }
+    fn get_at_g(&self, frame: FrameId, request: Request) -> Result<(FrameId, Class)> {
+        self.g_stub(request.class, request.order, Some(frame))
+    }
+}
+
+/// Common set-up of a helper obligation: a symbolic configuration under I and a symbolic, valid
+/// (class, order, optional target) triple. Returns (cfg, class, order, frame, local).
+fn helper_setup<const NC: usize>(zero_slot_last: bool, targeted: bool) -> (Cfg<NC>, Class, usize, Option<FrameId>, Option<usize>) {
+    kpolicy::init(false);
+    let c = any_cfg::<NC>(zero_slot_last);
+    kani::assume(inv(&c.words, &c.slots, &c.lf, &c.offline, c.last_slots));
+    let order: usize = kani::any();
+    kani::assume(order <= TREE_ORDER);
+    let n = 1usize << order;
+    let class: u8 = kani::any();
+    kani::assume((class as usize) < NC);
+    let local = if nslots(&c, class as usize) == 1 && kani::any() { Some(0) } else { None };
+    let frame = if targeted {
+        let f: usize = kani::any();
+        kani::assume(f < L2T * TREE_FRAMES && f % n == 0 && f + n <= L2T * TREE_FRAMES);
+        let free: bool = kani::any();
+        kani::assume(!free || c.lf[f / TREE_FRAMES] >= n);
+        unsafe {
+            ghost::TGT_FRAME = f;
+            ghost::TGT_ORDER = order;
+            ghost::TGT_FREE = free;
+        }
+        Some(FrameId(f))
+    } else {
+        None
+    };
+    (c, Class(class), order, frame, local)
+}
+
+fn check_steal_global<const NC: usize>(zs: bool, targeted: bool) {
+    let (c, class, order, frame, _) = helper_setup::<NC>(zs, targeted);
+    let i: usize = kani::any();
+    kani::assume(i < L2T && frame.is_none_or(|f| f.0 / TREE_FRAMES == i));
+    with_alloc(&c, |a| {
+        let r = a.steal_global(TreeId(i), class, order, frame);
+        vcover!(r.is_ok(), "steal_global ok");
+        g_check(a, &c.lf, class, order, frame, &r);
+    });
+}
+fn check_reserve_or_steal<const NC: usize>(zs: bool) {
+    let (c, class, order, _, local) = helper_setup::<NC>(zs, false);
+    kani::assume(local.is_some());
+    let i: usize = kani::any();
+    kani::assume(i < L2T);
+    with_alloc(&c, |a| {
+        let r = a.reserve_or_steal(TreeId(i), order, class, local.unwrap());
+        vcover!(r.is_ok(), "reserve_or_steal ok");
+        g_check(a, &c.lf, class, order, None, &r);
+    });
+}
+fn check_get_local<const NC: usize>(zs: bool, targeted: bool) {
+    let (c, class, order, frame, local) = helper_setup::<NC>(zs, targeted);
+    kani::assume(local.is_some());
+    let sync: bool = kani::any();
+    with_alloc(&c, |a| {
+        let r = a.get_local(order, class, local.unwrap(), frame, sync);
+        vcover!(r.is_ok(), "get_local ok");
+        let r2 = match r {
+            Ok(x) => Ok(x),
+            Err((e, t)) => {
+                clause!(t.is_none_or(|t| t.0 < L2T), "get_local reports a tree id inside the tree array");
+                Err(e)
+            }
+        };
+        g_check(a, &c.lf, class, order, frame, &r2);
+    });
+}
+fn check_steal_local<const NC: usize>(zs: bool, targeted: bool) {
+    let (c, class, order, frame, local) = helper_setup::<NC>(zs, targeted);
+    with_alloc(&c, |a| {
+        let r = a.steal_local(&Request::new(order, class, local), frame);
+        vcover!(r.is_ok(), "steal_local ok");
+        g_check(a, &c.lf, class, order, frame, &r);
+    });
+}
+fn check_demote_local<const NC: usize>(zs: bool, targeted: bool) {
+    let (c, class, order, frame, local) = helper_setup::<NC>(zs, targeted);
+    with_alloc(&c, |a| {
+        let r = a.demote_local(&Request::new(order, class, local), frame);
+        vcover!(r.is_ok(), "demote_local ok");
+        g_check(a, &c.lf, class, order, frame, &r);
+    });
+}
+fn check_search_and_reserve<const NC: usize>(zs: bool) {
+    let (c, class, order, _, local) = helper_setup::<NC>(zs, false);
+    kani::assume(local.is_some());
+    let start: usize = kani::any();
+    kani::assume(start < L2T);
+    with_alloc(&c, |a| {
+        let r = a.search_and_reserve(order, class, local.unwrap(), TreeId(start));
+        g_check(a, &c.lf, class, order, None, &r);
+    });
+}
+fn check_get_at<const NC: usize>(zs: bool) {
+    let (c, class, order, frame, local) = helper_setup::<NC>(zs, true);
+    with_alloc(&c, |a| {
+        let r = a.get_at(frame.unwrap(), Request::new(order, class, local));
+        g_check(a, &c.lf, class, order, frame, &r);
+    });
+}
+fn check_get<const NC: usize>(zs: bool, targeted: bool) {
+    let (c, class, order, frame, local) = helper_setup::<NC>(zs, targeted);
+    with_alloc(&c, |a| {
+        let r = a.get(frame, Request::new(order, class, local));
+        g_check(a, &c.lf, class, order, frame, &r);
+    });
+}
+
+macro_rules! path_harness {
+    ($name:ident, [$($stub:meta),*], $body:expr) => {
+        #[kani::proof]
+        #[kani::unwind(10)]
+        #[kani::solver(kissat)]
+        #[kani::stub(crate::atomic::Atom::try_update, crate::atomic::Atom::try_update_seq)]
+        #[kani::stub(crate::atomic::Atom::update, crate::atomic::Atom::update_seq)]
+        $(#[$stub])*
+        fn $name() {
+            $body
+        }
+    };
+}
+path_harness!(l2_steal_global_2c, [kani::stub(crate::lower::Lower::get, crate::lower::Lower::get_contract)], check_steal_global::<2>(false, false));
+path_harness!(l2_steal_global_at_2c, [kani::stub(crate::lower::Lower::get, crate::lower::Lower::get_contract)], check_steal_global::<2>(false, true));
+path_harness!(l2_steal_global_3c_zero_slot, [kani::stub(crate::lower::Lower::get, crate::lower::Lower::get_contract)], check_steal_global::<3>(true, false));
+path_harness!(l2_reserve_or_steal_2c, [kani::stub(crate::lower::Lower::get, crate::lower::Lower::get_contract)], check_reserve_or_steal::<2>(false));
+path_harness!(l2_reserve_or_steal_3c_zero_slot, [kani::stub(crate::lower::Lower::get, crate::lower::Lower::get_contract)], check_reserve_or_steal::<3>(true));
+path_harness!(l2_get_local_2c, [kani::stub(crate::lower::Lower::get, crate::lower::Lower::get_contract)], check_get_local::<2>(false, false));
+path_harness!(l2_get_local_at_2c, [kani::stub(crate::lower::Lower::get, crate::lower::Lower::get_contract)], check_get_local::<2>(false, true));
+path_harness!(l2_steal_local_2c, [kani::stub(crate::lower::Lower::get, crate::lower::Lower::get_contract)], check_steal_local::<2>(false, false));
+path_harness!(l2_steal_local_at_3c_zero_slot, [kani::stub(crate::lower::Lower::get, crate::lower::Lower::get_contract)], check_steal_local::<3>(true, true));
+path_harness!(l2_demote_local_2c, [kani::stub(crate::lower::Lower::get, crate::lower::Lower::get_contract)], check_demote_local::<2>(false, false));
+path_harness!(l2_demote_local_at_3c_zero_slot, [kani::stub(crate::lower::Lower::get, crate::lower::Lower::get_contract)], check_demote_local::<3>(true, true));
+path_harness!(l2_search_and_reserve_2c, [kani::stub(crate::trees::Trees::search_best, crate::trees::Trees::search_best_contract), kani::stub(crate::llfree::LLFree::reserve_or_steal, crate::llfree::LLFree::reserve_or_steal_g)], check_search_and_reserve::<2>(false));
+path_harness!(l2_search_and_reserve_3c_zero_slot, [kani::stub(crate::trees::Trees::search_best, crate::trees::Trees::search_best_contract), kani::stub(crate::llfree::LLFree::reserve_or_steal, crate::llfree::LLFree::reserve_or_steal_g)], check_search_and_reserve::<3>(true));
+path_harness!(l2_get_at_2c, [kani::stub(crate::llfree::LLFree::get_local, crate::llfree::LLFree::get_local_g), kani::stub(crate::llfree::LLFree::steal_global, crate::llfree::LLFree::steal_global_g),
+    kani::stub(crate::llfree::LLFree::steal_local, crate::llfree::LLFree::steal_local_g), kani::stub(crate::llfree::LLFree::demote_local, crate::llfree::LLFree::demote_local_g)], check_get_at::<2>(false));
+path_harness!(l2_get_2c, [kani::stub(crate::trees::Trees::search_best, crate::trees::Trees::search_best_contract), kani::stub(crate::llfree::LLFree::get_local, crate::llfree::LLFree::get_local_g), kani::stub(crate::llfree::LLFree::steal_global, crate::llfree::LLFree::steal_global_g),
+    kani::stub(crate::llfree::LLFree::steal_local, crate::llfree::LLFree::steal_local_g), kani::stub(crate::llfree::LLFree::demote_local, crate::llfree::LLFree::demote_local_g),
+    kani::stub(crate::llfree::LLFree::search_and_reserve, crate::llfree::LLFree::search_and_reserve_g), kani::stub(crate::llfree::LLFree::get_at, crate::llfree::LLFree::get_at_g)], check_get::<2>(false, false));
+path_harness!(l2_get_targeted_2c, [kani::stub(crate::llfree::LLFree::get_at, crate::llfree::LLFree::get_at_g)], check_get::<2>(false, true));
+path_harness!(l2_get_3c_zero_slot, [kani::stub(crate::trees::Trees::search_best, crate::trees::Trees::search_best_contract), kani::stub(crate::llfree::LLFree::get_local, crate::llfree::LLFree::get_local_g), kani::stub(crate::llfree::LLFree::steal_global, crate::llfree::LLFree::steal_global_g),
+    kani::stub(crate::llfree::LLFree::steal_local, crate::llfree::LLFree::steal_local_g), kani::stub(crate::llfree::LLFree::demote_local, crate::llfree::LLFree::demote_local_g),
+    kani::stub(crate::llfree::LLFree::search_and_reserve, crate::llfree::LLFree::search_and_reserve_g), kani::stub(crate::llfree::LLFree::get_at, crate::llfree::LLFree::get_at_g)], check_get::<3>(true, false));
+
+// ---------------------------------------------------------------------------------------------
+// LLFree::new: metadata validation (C08), assume-initialized mode (C07), carved slices (C18)
+// The three buffers are carved out of ONE aligned array so that the pointer comparisons of
+// `MetaData::valid` stay inside one object for CBMC.
+// ---------------------------------------------------------------------------------------------
+const NEW_FRAMES: usize = TREE_FRAMES + 5; // two trees, partial last tree
+#[repr(align(64))]
+struct MetaBuf([u8; 2048]);
+
+fn simple_policy(requested: Class, target: Class, _free: usize) -> Policy {
+    if requested.0 > target.0 {
+        Policy::Steal
+    } else if requested.0 < target.0 {
+        Policy::Demote
+    } else {
+        Policy::Match(1)
+    }
+}
+
+/// C08: construction succeeds exactly when every buffer is large enough, cache aligned and disjoint
+/// from the others; otherwise it returns an initialization error.
+#[kani::proof]
+#[kani::unwind(10)]
+fn c08_new_rejects_bad_metadata() {
+    let classing = Classing::new(&[(Class(0), 1), (Class(1), 1)], Class(1), simple_policy);
+    let m = LLFree::metadata_size(&classing, NEW_FRAMES);
+    let mut buf = MetaBuf([0; 2048]);
+    let base = buf.0.as_mut_ptr();
+    let (o1, o2, o3): (usize, usize, usize) = (kani::any(), kani::any(), kani::any());
+    let (l1, l2, l3): (usize, usize, usize) = (kani::any(), kani::any(), kani::any());
+    kani::assume(l1 >= 1 && l2 >= 1 && l3 >= 1);
+    kani::assume(o1 <= 2048 && l1 <= 2048 - o1 && o2 <= 2048 && l2 <= 2048 - o2 && o3 <= 2048 && l3 <= 2048 - o3);
+    let meta = unsafe {
+        MetaData {
+            local: core::slice::from_raw_parts_mut(base.add(o1), l1),
+            trees: core::slice::from_raw_parts_mut(base.add(o2), l2),
+            lower: core::slice::from_raw_parts_mut(base.add(o3), l3),
+        }
+    };
+    let r = LLFree::new(NEW_FRAMES, Init::None, &classing, meta);
+    let short = l1 < m.local || l2 < m.trees || l3 < m.lower;
+    let misaligned = o1 % 64 != 0 || o2 % 64 != 0 || o3 % 64 != 0;
+    let inter = |a: usize, la: usize, b: usize, lb: usize| a < b + lb && b < a + la;
+    let overlapping = inter(o1, l1, o2, l2) || inter(o2, l2, o3, l3) || inter(o3, l3, o1, l1);
+    vcover!(r.is_ok(), "valid metadata accepted");
+    vcover!(r.is_err() && !short && !misaligned, "overlap rejected");
+    clause!(r.is_err() == (short || misaligned || overlapping), "C08: construction fails exactly for metadata that is too small, misaligned or overlapping");
+    if let Err(e) = r {
+        clause!(e == Error::Initialization, "C08: bad metadata is rejected with an initialization error");
+    }
+}
+
+/// C07: assume-initialized construction writes nothing and yields the same allocator shape as any
+/// other initialisation mode (so an allocator rebuilt over byte copies has the same concrete state).
+#[kani::proof]
+#[kani::unwind(10)]
+fn c07_init_none_keeps_buffers() {
+    let classing = Classing::new(&[(Class(0), 1), (Class(1), 1)], Class(1), simple_policy);
+    let m = LLFree::metadata_size(&classing, NEW_FRAMES);
+    let mut buf = MetaBuf(kani::any());
+    let before = buf.0;
+    let base = buf.0.as_mut_ptr();
+    let o2 = m.local.next_multiple_of(64);
+    let o3 = o2 + m.trees.next_multiple_of(64);
+    kani::assume(o3 + m.lower <= 2048);
+    let meta = unsafe {
+        MetaData {
+            local: core::slice::from_raw_parts_mut(base, m.local),
+            trees: core::slice::from_raw_parts_mut(base.add(o2), m.trees),
+            lower: core::slice::from_raw_parts_mut(base.add(o3), m.lower),
+        }
+    };
+    let mut a = LLFree::new(NEW_FRAMES, Init::None, &classing, meta).unwrap();
+    clause!(a.frames() == NEW_FRAMES && a.trees.len() == NEW_FRAMES.div_ceil(TREE_FRAMES), "C07: frame and tree counts as configured");
+    clause!(a.locals.class_locals(Class(0)) == Some(1) && a.locals.class_locals(Class(1)) == Some(1) && a.locals.class_locals(Class(2)).is_none(), "C07: slot layout as configured");
+    let md = unsafe { a.metadata() };
+    clause!(md.local.as_ptr() as usize == base as usize && md.local.len() == m.local, "C07: metadata() returns the local buffer that was passed in");
+    clause!(md.trees.as_ptr() as usize == base as usize + o2 && md.trees.len() == m.trees, "C07: metadata() returns the tree buffer that was passed in");
+    clause!(md.lower.as_ptr() as usize == base as usize + o3 && md.lower.len() == m.lower, "C07: metadata() returns the lower buffer that was passed in");
+    let k: usize = kani::any();
+    kani::assume(k < 2048);
+    clause!(buf.0[k] == before[k], "C07: assume-initialized construction writes no metadata byte");
+}
